@@ -170,7 +170,8 @@ def pmap(fn, cases, nproc=None, case_timeout=120, on_result=None):
     nproc = min(nproc or NPROC, max(1, len(cases)))
     n = len(cases)
     results = [None] * n
-    tmpd = tempfile.mkdtemp(prefix='vfpool', dir=os.path.join(VERIF, 'build'))
+    os.makedirs(vbuild.BUILD, exist_ok=True)
+    tmpd = tempfile.mkdtemp(prefix='vfpool', dir=vbuild.BUILD)
     shares = [list(range(k, n, nproc)) for k in range(nproc)]
     workers = {}   # rfd -> dict
     def spawn(k, idxs):
